@@ -18,9 +18,21 @@ def generate(ctx):
         cls = rng.choice(["generic-tree", "generic-tree", "generic-cyclic", "collinear-chain", "axis-chain",
                           "tilted-axis-chain", "partly-collinear", "nearly-collinear", "lattice"])
         pos, bonds, cls = E.gen_ref(rng, cls)
-        yield {"ref": {"pos": pos, "bonds": [list(b) for b in bonds]}, "tgt": E.gen_tgt(rng, pos, cls),
-               "s": E.gen_scale(rng), "mode": "same", "cls": cls, "seed": rng.randrange(2 ** 31),
-               "ident": rng.choice(["fresh", "fresh", "construction-object", "reused-object"])}
+        c = {"ref": {"pos": pos, "bonds": [list(b) for b in bonds]}, "tgt": E.gen_tgt(rng, pos, cls),
+             "s": E.gen_scale(rng), "mode": "same", "cls": cls, "seed": rng.randrange(2 ** 31),
+             "ident": rng.choice(["fresh", "fresh", "construction-object", "reused-object"])}
+        k = rng.random()
+        if k < 0.06:
+            # a target built in a program on INTEGER coordinates (lattice sites), its atoms holding integer arrays: "any
+            # placement" — the mapped coordinates are a + s (p - a) all the same (seed C01-12: the restored coordinates
+            # written into a buffer that inherits the target's dtype)
+            c["tgt"] = [[float(round(v)) for v in q] for q in c["tgt"]]
+            c["tgt_dtype"] = "int64"
+        elif k < 0.12:
+            # ... or single-precision arrays, as trajectory readers deliver (values exactly representable in float32)
+            c["tgt"] = [[round(v * 64.0) / 64.0 for v in q] for q in c["tgt"]]
+            c["tgt_dtype"] = "float32"
+        yield c
 
 
 def exact_closest(refpos, anchors, p):
